@@ -241,6 +241,10 @@ def step (s : St) (ws : List String) : St × List String :=
     | some true, some e => let s' := { s with acc := (s.acc.step s.lab (.disconnect e)).1 }; (s', [tline s' 0 0])
     | some false, some e => let s' := { s with anyc := (anyStep s.anyc (.disconnect e)).1 }; (s', [tline s' 0 0])
     | _, _ => (s, ["bad-op"])
+  | ["ttrip"] =>
+    -- the graph holding the triggers goes through a state round trip (pickle) between two events
+    let s' := { s with acc := s.acc.roundtrip false }
+    (s', [tline s' 0 0])
   | ["tdisconnectall", t] =>
     match parseTrig t with
     | some true =>
